@@ -44,7 +44,12 @@ GEN_W = GEN_A.replace("GEN_A", "GEN_W").replace("REJECT", "WARN")
 FROZEN_S = GEN_A.replace("GEN_A", "FROZEN_S")
 BROKEN = "===BROKEN===\nFIELDS:\n  NAME::[\"ex\"∧REQ\n  (((\n"
 EMPTY_S = '===EMPTY_S===\nMETA:\n  TYPE::SCHEMA\n  VERSION::"1.0.0"\n===END===\n'
-KNOWN_OK = {"META", "SKILL", "DEBATE_TRANSCRIPT", "TEST_HOLOGRAPHIC", "GEN_A", "GEN_W"}
+FM_ONLY = ('===FM_ONLY===\nMETA:\n  TYPE::SCHEMA\n  VERSION::"1.0.0"\n  STATUS::ACTIVE\n---\nFRONTMATTER:\n  name:\n    REQUIRED::true\n    TYPE::STRING\n'
+           '  allowed-tools:\n    REQUIRED::true\n    TYPE::LIST\n===END===\n')  # frontmatter requirements and no FIELDS block
+KNOWN_OK = {"META", "SKILL", "DEBATE_TRANSCRIPT", "TEST_HOLOGRAPHIC", "GEN_A", "GEN_W", "FM_ONLY"}
+FM_KINDS = {"fm_ok": "---\nname: x\ndescription: y\nallowed-tools: [a]\n---\n\n", "fm_missing_one": "---\nname: x\ndescription: y\n---\n\n", "fm_blank": "---\n\n---\n\n",
+            "fm_comment_only": "---\n# nothing here\n---\n\n", "fm_scalar": "---\njust a title\n---\n\n", "fm_list": "---\n- a\n- b\n---\n\n",
+            "fm_wrong_type": "---\nname: [x]\ndescription: y\nallowed-tools: a\n---\n\n", "fm_bad_yaml": "---\nname: [x\n: :\n---\n\n"}
 
 
 def sha(text: str) -> str:
@@ -53,12 +58,12 @@ def sha(text: str) -> str:
 
 D_GOOD = sha(FROZEN_S)
 D_OTHER = sha("something else")
-SCHEMAS = ["META", "SKILL", "DEBATE_TRANSCRIPT", "TEST_HOLOGRAPHIC", "GEN_A", "GEN_W", "BROKEN", "EMPTY_S", "NOPE", "meta", "Meta", "../meta",
+SCHEMAS = ["META", "SKILL", "SKILL", "FM_ONLY", "DEBATE_TRANSCRIPT", "TEST_HOLOGRAPHIC", "GEN_A", "GEN_W", "BROKEN", "EMPTY_S", "NOPE", "meta", "Meta", "../meta",
            "specs/schemas/gen_a", "META\n", "", "GEN_A.oct.md", "latest", "frozen@sha256:" + D_GOOD, "frozen@sha256:" + D_GOOD.upper(),
            "frozen@sha256:" + D_OTHER, "frozen@sha256:" + D_GOOD[:16], "frozen@sha256:../../" + D_GOOD[:58], "frozen@md5:" + D_GOOD[:32]]
 PROFILES = [None, "STRICT", "STANDARD", "LENIENT", "ULTRA", "strict", "FOO", ""]
 CONTENT_KINDS = ["valid", "instance_quoted_number", "instance_type_violation", "valid_lenient_spelling", "missing_version", "bad_status", "case_status", "unknown_meta_field", "no_meta",
-                 "instance_missing_req", "instance_unknown", "instance_bad_enum", "unparseable", "untokenisable", "empty", "prose"]
+                 "instance_missing_req", "instance_unknown", "instance_bad_enum", "unparseable", "untokenisable", "empty", "prose"] + sorted(FM_KINDS)
 
 
 def content_for(kind: str, schema: str) -> str:
@@ -66,6 +71,8 @@ def content_for(kind: str, schema: str) -> str:
     head = '===DOC===\nMETA:\n  TYPE::SKILL\n  VERSION::"1.0"\n  STATUS::ACTIVE\n'
     body = f"{inst}:\n  NAME::widget\n  STATUS::ACTIVE\n  COUNT::5\n"
     tail = "===END===\n"
+    if kind in FM_KINDS:
+        return FM_KINDS[kind] + head + body + tail
     if kind == "valid":
         return head + body + tail
     if kind == "valid_lenient_spelling":
@@ -102,7 +109,7 @@ def content_for(kind: str, schema: str) -> str:
 def plant(root: str, latest: bool):
     sdir = os.path.join(root, "specs", "schemas")
     os.makedirs(sdir, exist_ok=True)
-    for name, text in (("gen_a", GEN_A), ("gen_w", GEN_W), ("broken", BROKEN), ("empty_s", EMPTY_S)):
+    for name, text in (("gen_a", GEN_A), ("gen_w", GEN_W), ("broken", BROKEN), ("empty_s", EMPTY_S), ("fm_only", FM_ONLY)):
         with open(os.path.join(sdir, name + ".oct.md"), "w", encoding="utf-8") as fh:
             fh.write(text)
     cache = os.path.join(root, "home", ".octave", "standards")
@@ -149,6 +156,10 @@ def has_blocking_error(case) -> bool:
             return True
     if sch == "META" and kind in ("missing_version",):
         return True
+    # schemas with FRONTMATTER requirements (packaged SKILL: name, description, allowed-tools; planted FM_ONLY: name,
+    # allowed-tools): every parseable content except the one carrying a complete, well-typed frontmatter violates them
+    if sch in ("SKILL", "FM_ONLY") and not parse_fails(kind):
+        return kind != "fm_ok"
     return False
 
 
